@@ -346,6 +346,11 @@ func runProgram(r *ev.Run, id string, i int) {
 			sa = append(sa, a.attr)
 		}
 		lvl := slog.Level(rr.Intn(41) - 20)
+		if rr.P(1, 8) {
+			// "all slog level values": far outside the named range, around powers of two where a
+			// narrowing conversion would wrap
+			lvl = rng.Pick(rr, []slog.Level{-1 << 63, -1 << 40, -1 << 31, -65536, -1025, -1024, -516, -513, -512, -129, -128, 127, 128, 508, 511, 512, 516, 1020, 1024, 32767, 65536, 1 << 31, 1 << 40, 1<<63 - 1})
+		}
 		msg := fmt.Sprintf("m%d-%d", i, len(trace))
 		t := g.SaneTime()
 		if rr.P(1, 8) {
